@@ -132,6 +132,24 @@ def run_check(pid, tier, seed, write_baseline=False):
         except Exception as e:
             errors.append(f"native_checks: {type(e).__name__}: {e}")
 
+    # A function under contract that has left the verified subset is undecided; the property's
+    # bounded stand-in (a native differential search, labelled bounded) is then run, and a failing
+    # input it finds is a violation replayed on the real code.
+    standins = []
+    if undecided and hasattr(prop, "STANDIN"):
+        try:
+            res = run_standin(prop.STANDIN, seed)
+            standins.append({"function": prop.STANDIN, "tool": "native differential search",
+                             "budget": getattr(prop, "STANDIN_BUDGET", "see module"),
+                             "outcome": "failing input found" if res else "nothing found"})
+            if res:
+                path = write_replay(pid, "standin:" + prop.STANDIN, {
+                    "property": pid, "obligation": "bounded stand-in " + prop.STANDIN,
+                    "because_undecided": undecided[:5], "native": res})
+                violations.append(({"id": "standin"}, {"path": path}, ""))
+        except Exception as e:
+            errors.append(f"stand-in {prop.STANDIN}: {type(e).__name__}: {e}")
+
     if n_obl == 0:
         errors.append("no obligations were generated")
     if missing:
@@ -175,7 +193,7 @@ def run_check(pid, tier, seed, write_baseline=False):
             "samples": samples,
             "explanation": getattr(prop, "EXPLANATION", ""),
             "unverified": getattr(prop, "UNVERIFIED", []),
-            "bounded_standins": [],
+            "bounded_standins": standins,
             "undecided": undecided[:50],
             "errors": errors[:20],
             "known_findings_hit": [kf["what"] for kf, _ in known_hits],
@@ -207,6 +225,19 @@ def run_check(pid, tier, seed, write_baseline=False):
     for line in out_lines:
         print(line)
     return code
+
+
+def run_standin(spec, seed):
+    mod, _, fn = spec.partition(":")
+    code = (f"import json, {mod} as m\nr = m.{fn}(seed={seed})\n"
+            "print('STANDIN-RESULT ' + json.dumps(r, default=str))")
+    env = dict(os.environ)
+    env["PYTHONPATH"] = os.path.join(REPO, "src") + os.pathsep + ROOT
+    p = subprocess.run([NATIVE_PY, "-c", code], capture_output=True, text=True, timeout=600, env=env)
+    for line in p.stdout.splitlines():
+        if line.startswith("STANDIN-RESULT "):
+            return json.loads(line[len("STANDIN-RESULT "):])
+    raise RuntimeError(p.stderr[-500:])
 
 
 def write_replay(pid, oid, payload):
